@@ -26,6 +26,9 @@ def h_left_step(ctx, d, i, n, rl, rr, inplace, layout='C', alias=False):
     M = Q @ R
     Y[i] = rF(M, (ranks[i], n, rr))
     expect(ctx, 'qr', M, (Q, R))
+    if rr > rows:
+        # (an implementation may factorise the leading square block of a wide unfolding instead)
+        expect(ctx, 'qr', M[:, :rows].copy(), (Q, R[:, :rows].copy()))
     if layout == 'F':
         Y = [np.asfortranarray(G) for G in Y]          # e.g. cores that came out of LAPACK
     if alias:
@@ -317,6 +320,11 @@ def instances(tier):
     for (d, i, n, rl, rr) in right:
         for inplace in (False, True):
             out.append({'func': 'h_right_step', 'params': {'d': d, 'i': i, 'n': n, 'rl': rl, 'rr': rr, 'inplace': inplace}})
+    # an over-ranked interior bond (right rank above rows of the unfolding, left rank and mode size > 1)
+    for (d, i, n, rl, rr) in [(3, 1, 2, 2, 5), (3, 1, 2, 2, 4)]:
+        out.append({'func': 'h_left_step', 'params': {'d': d, 'i': i, 'n': n, 'rl': rl, 'rr': rr, 'inplace': False}})
+    for (d, i, n, rl, rr) in [(3, 1, 2, 5, 2)]:
+        out.append({'func': 'h_right_step', 'params': {'d': d, 'i': i, 'n': n, 'rl': rl, 'rr': rr, 'inplace': False}})
     # a repeated core object next to the pair that is worked on
     for inplace in (True, False):
         out.append({'func': 'h_left_step', 'params': {'d': 4, 'i': 0, 'n': 2, 'rl': 1, 'rr': 2, 'inplace': inplace, 'alias': True}})
